@@ -83,3 +83,5 @@ pub open spec fn topics_frame(a: Map<u32, TopicState>, b: Map<u32, TopicState>, 
     &&& forall|k: u32| a.contains_key(k) <==> #[trigger] b.contains_key(k)
     &&& forall|k: u32| k != tid && #[trigger] a.contains_key(k) ==> b[k] == a[k]
 }
+#[verifier::external_body]
+pub fn diverge<T>() -> (r: T) ensures false { unimplemented!() }
